@@ -136,6 +136,11 @@ def build_inputs(tier):
     # empty / edge targets (the anchored mechanism: optional sequences into list fields)
     for s in ["() = x\n", "[] = x\n", "del ()\n", "del []\n", "for () in x: pass\n", "for [] in x: pass\n", "[1 for () in y]\n", "with a as (): pass\n", "with a as []: pass\n", "(a, [], ()) = z\n", "del (a, [b, ()])\n", "f()\n", "f(*a)\n", "class A(): pass\n", "def f(): pass\n", "lambda: 0\n", "x[()]\n", "x = ()\n", "[] \n", "{}\n", "print(*[], **{})\n", "def f(*a: *T): pass\n", "for $X, ${y} in z: pass\n", "($A, $B) = 1, 2\n", "[$A, *$B] = q\n", "with a as $V, b as ${w}: pass\n", "x = [$I for $I in r]\n", "$(x?)\n", "$(ls a?? b)\n", "x?.y?\n"]:
         cases.append(("edge", s, "exec"))
+    # xonsh constructs written over several lines (inside brackets, after a backslash) and string-literal ${..} targets
+    for s in ["print(    os?\n  .path?)\n", "x = (range?\n .index??\n    .real?)\n", "y = [a?.b?\n,  c??]\n", "z = os?\\\n.path?\n", "f(  $HOME\n, ${'A'\n 'B'})\n", "v = ($(ls\n -l),\n   !(echo\n a))\n",
+              "w = (`a.*`\n,\n p'/x'\n / 'y')\n", "${'X'} = 1\n", "${'A' 'B'}, c = 1, 2\n", "for ${'X'} in z: pass\n", "with f as ${'FH'}: pass\n", "[i for ${'K'} in z]\n", "(${'X'}) = 1\n", "*${'X'}, y = 1, 2\n",
+              "${'X'}: int = 1\n" if False else "q = ${'X'}\n", "a = (b\n  and $X\n  || ${'Y'}\n  && c)\n"]:
+        cases.append(("edge-multiline", s, "exec"))
     for i in range(250 * N):
         g = pyprog.gen_program(r, fstrings=True, maxdepth=3, nstmts=r.randint(1, 3))
         if g:
